@@ -117,9 +117,19 @@ def run_c05(t, tier, res):
                  "Mr.Smith1987!", "i<3you", "test.com/abc", "йцук123", "12345", "passwordpassword"]
         for _ in range(t.draw(4)):
             pws.append(extra[t.draw(len(extra))])
-        scratch.fresh_disk()
+        wr = scratch.fresh_disk()
+        mw_words = None
+        if t.chance(1, 4):
+            # --multiword FILE: words that count as base words from the start (pre-training with set_threshold)
+            mw_words = [t.choice(trainer.WORDS + ["pass", "word", "qwerty12", "ab", "love!", "Dragon"]) for _ in range(t.between(1, 6))]
+            mwf = os.path.join(wr, "multiword.txt")
+            with open(mwf, "wb") as f:
+                f.write("".join(w + "\n" for w in mw_words).encode(opts["encoding"]))
+            opts = dict(opts, multiword=mwf)
+            res.faults["multiword_pretraining_file"] += 1
         tr = trainer.train(pws, opts)
-        res.sample = {"mode": "trainer", "passwords": pws[:14], "n": len(pws), "opts": opts}
+        res.sample = {"mode": "trainer", "passwords": pws[:14], "n": len(pws), "opts": {k: v for k, v in opts.items() if k != "multiword"},
+                      "multiword_file": mw_words}
         if tr.exc and "parse" in tr.exc:
             res.violate("C05", "parse_raised", {"exception": tr.exc[-900:]})
             return
@@ -127,7 +137,11 @@ def run_c05(t, tier, res):
             res.rejected = "trainer_failed_before_parsing"
             return
         hist = AlphaHistory()
-        for pw in (tr.cap.reads[0] if tr.cap.reads else []):
+        reads = list(tr.cap.reads)
+        if mw_words is not None and reads:
+            for w in reads.pop(0):
+                hist.train(w, set_threshold=True)
+        for pw in (reads[0] if reads else []):
             hist.train(pw)
         nt = check_parses(res, "C05", tr.cap.parses, hist)
         parser = tr.cap.parser
@@ -269,6 +283,15 @@ def check_ruleset_against_tally(rdir, enc, tally, opts, n_valid):
         p = check_list_file(os.path.join(rdir, path), enc, c, path)
         if p:
             return p
+    if opts.get("save_sensitive"):
+        for path, c in (("Emails/full_emails.txt", tally.emails), ("Websites/website_urls.txt", tally.urls)):
+            p = check_list_file(os.path.join(rdir, path), enc, c, path)
+            if p:
+                return p
+    else:
+        for path in ("Emails/full_emails.txt", "Websites/website_urls.txt"):
+            if os.path.exists(os.path.join(rdir, path)):
+                return ("sensitive_file_written_without_request", {"file": path})
     p = check_list_file(os.path.join(rdir, "Prince", "grammar.txt"), "ascii", tally.prince, "Prince/grammar.txt")
     if p:
         return p
@@ -291,6 +314,11 @@ def check_ruleset_against_tally(rdir, enc, tally, opts, n_valid):
         return ("coverage_0_has_other_structures", {"structures": [s for s, _ in got][:4]})
     want = collections.Counter({k: v for k, v in want.items() if v})
     total = sum(want.values())
+    if not want:
+        # every structure of the list is unsupported (e-mail/website) and there is no Markov mass: nothing to write
+        if got:
+            return ("base_structures_differ", {"on_disk": [s for s, _ in got][:6], "expected": []})
+        return None
     if {s for s, _ in got} != set(want) or len(got) != len(want):
         return ("base_structures_differ", {"on_disk": [s for s, _ in got][:6], "expected": sorted(want)[:6]})
     prev = None
@@ -393,7 +421,9 @@ def child_hashes(seeds):
     return out
 
 
-def extra_phase(tier, base_seed):
+def extra_phase(tier, base_seed, prop="C06"):
+    if prop != "C06":
+        return {}
     n = 40 if tier == "quick" else 300
     seeds = [base_seed * 31337 + 5000 + i for i in range(n)]
     runs = []
